@@ -25,8 +25,8 @@ def genZetaTable (m : Mode) : M (List Int) := do
   pure ((List.range 256).map (fun j => match r.2.find? (fun p => p.1 == j) with
     | some p => p.2 | none => 0))
 
-def zetaTable : List Int := match genZetaTable .release with | .ok t => t | .error _ => []
-def zetaArr : Array Int := zetaTable.toArray
+@[irreducible] def zetaTable : List Int := match genZetaTable .release with | .ok t => t | .error _ => []
+@[irreducible] def zetaArr : Array Int := zetaTable.toArray
 
 def zeta (site : String) (k : Nat) : M Int :=
   match zetaArr[k]? with | some z => pure z | none => throw (.oob site)
